@@ -1,26 +1,170 @@
-//! C01: not implemented yet.
+//! C01: compiled scripts compute what the Sway semantics prescribe.
+//! Monitor: SwGen program -> real compiler (debug and release, amortised forc engine) -> FuelVM
+//! on several input vectors -> compared with the harness's reference interpreter.
 use crate::common::*;
+use crate::engine::*;
+use crate::swrun::*;
 use crate::{Plan, Prop};
+use serde_json::{json, Value};
+use std::panic::AssertUnwindSafe;
 
 pub static META: PropertyMeta = PropertyMeta {
     id: "C01",
     level: "exploration",
-    rule: "not implemented",
-    assumptions: &[],
-    floor_evaluations: 1,
-    floor_nontrivial: 2,
-    required_counters: &[],
+    rule: "SwGen programs (typed random scripts over u8..u256, bool, b256, tuples, arrays, structs, enums, ref mut params, if/while/match/break/continue/early return, generic and trait calls; modes plain / near-duplicate functions / constant-rich / register-pressure / aggregate-heavy / out-of-bounds) x 12 input vectors (half small, half boundary-biased) x {debug, release}; plus e2e 'run' tests with maintainer-written expected results; an evaluation = one program; non-trivial = compiled, at least one input ran to completion and two inputs gave different reference outcomes; distinct = hash of the source text",
+    assumptions: &[
+        "fuel-vm 0.66 is the trusted execution substrate",
+        "the reference interpreter in harness/src/swgen.rs implements the documented semantics; it is independent of the compiler",
+        "when the reference outcome is a revert only revert/non-revert is compared",
+    ],
+    floor_evaluations: 40,
+    floor_nontrivial: 10,
+    required_counters: &["executions", "executions_returned", "executions_reverted", "profile.debug", "profile.release"],
 };
 
 pub static PROP: Prop = Prop {
     meta: &META,
-    plan: |_t| Plan { nshards: 1, budget_s: 1.0, mem_gib: 0 },
-    shard: |_ctx| {
-        let mut r = ShardResult::default();
-        r.harness_fault = Some("not implemented".into());
-        r
-    },
-    replay: crate::no_replay,
+    plan: |t| Plan { nshards: 16, budget_s: t.pick(55.0, 1200.0), mem_gib: 6 },
+    shard,
+    replay,
     extra: crate::no_extra,
-    subcommand: crate::no_subcommand,
+    subcommand,
 };
+
+pub const OOB_SIG: &str = "dynamic-array-index-out-of-bounds-does-not-revert";
+
+pub fn run_case(am: &mut Amortised, case: &Case, res: &mut ShardResult, validate_plain: bool) {
+    res.evaluations += 1;
+    let mut compiled_any = false;
+    for profile in Profile::BOTH {
+        let r = catch(AssertUnwindSafe(|| am.compile("gencase", &case.src, profile)));
+        let c = match r {
+            Err((loc, msg)) => {
+                // a compiler crash is C17's business; here it only means nothing was observed
+                res.count("compiler_panics");
+                res.inconclusive(format!("compiler panicked at {loc}: {}", msg.chars().take(100).collect::<String>()));
+                continue;
+            }
+            Ok(Err(_)) => {
+                res.count("rejected");
+                let dir = am_last_dir(am);
+                let msg = first_error_text(am, &dir, profile);
+                res.count(&format!("rejected.{}", bucket(&msg)));
+                // keep the first program of every rejection class for inspection
+                let keep = work_dir("rejected").join(format!("{}_{}.sw", profile.name(), bucket(&msg).replace([' ', '#'], "_")));
+                if !keep.exists() {
+                    let _ = std::fs::write(&keep, format!("// {msg}\n{}", case.src));
+                }
+                let _ = std::fs::remove_dir_all(&dir);
+                continue;
+            }
+            Ok(Ok(c)) => c,
+        };
+        compiled_any = true;
+        res.count(&format!("profile.{}", profile.name()));
+        if validate_plain {
+            match plain_build(&c.dir, profile) {
+                Ok(p) => {
+                    res.count("amortised_vs_plain_compared");
+                    if p.bytecode.bytes != c.pkg.bytecode.bytes {
+                        res.harness_fault = Some("amortised engine bytecode differs from plain forc build".into());
+                    }
+                }
+                Err(e) => res.inconclusive(format!("plain build failed where amortised succeeded: {e}")),
+            }
+        }
+        for (k, data) in case.script_data.iter().enumerate() {
+            let obs = run_script(&c.pkg.bytecode.bytes, data);
+            res.count("executions");
+            if obs.outcome.reverted() {
+                res.count("executions_reverted");
+            } else {
+                res.count("executions_returned");
+            }
+            match compare_case(case, k, &obs) {
+                Cmp::Agree => {}
+                Cmp::DeadUbTolerated => res.count("dead_invalid_arithmetic_removed_tolerated"),
+                Cmp::Inconclusive(n) => res.inconclusive(n),
+                Cmp::OobNoRevert => {
+                    res.violation(OOB_SIG, format!("a run-time array index >= length does not revert ({}): observed {}", profile.name(), obs.short()), case.replay_json(json!({"input": k, "profile": profile.name()})));
+                }
+                Cmp::Mismatch(m) => {
+                    res.violation(
+                        format!("semantics-mismatch:{:016x}", hash64(case.src.as_bytes())),
+                        format!("[{} input {k} mode {}] {m}", profile.name(), case.mode.name()),
+                        case.replay_json(json!({"input": k, "profile": profile.name()})),
+                    );
+                    break;
+                }
+            }
+        }
+        am.remove(&c);
+    }
+    if compiled_any {
+        if case.nontrivial() {
+            res.note_nontrivial(hash64(case.src.as_bytes()));
+        }
+        if res.samples.is_empty() {
+            res.sample(json!({"mode": case.mode.name(), "source": case.src, "script_data": case.script_data.iter().take(3).map(hex::encode).collect::<Vec<_>>(), "expected": case.expected.iter().take(3).map(|o| format!("{:?}", o.result.as_ref().map(hex::encode))).collect::<Vec<_>>()}));
+        }
+    }
+}
+
+fn am_last_dir(am: &Amortised) -> std::path::PathBuf {
+    am.last_dir()
+}
+
+fn shard(ctx: &ShardCtx) -> ShardResult {
+    let mut res = ShardResult::default();
+    let mut am = Amortised::new(&ctx.work());
+    let mut i = 0u64;
+    while ctx.time_left() {
+        let case = case_at(ctx.seed, ctx.shard, i, 12, &mut res);
+        journal_current(ctx, &case.src);
+        run_case(&mut am, &case, &mut res, i == 1);
+        i += 1;
+        if i % 20 == 0 {
+            write_partial(ctx, &res);
+        }
+    }
+    res
+}
+
+fn replay(case: &Value) -> ShardResult {
+    // regenerate the recorded case (needed for the dead-UB arbitration) and run it again
+    let mut res = ShardResult::default();
+    let work = work_dir("C01").join("replay");
+    clean_dir(&work);
+    let mut am = Amortised::new(&work);
+    match case_from_replay(case) {
+        Some(c) => run_case(&mut am, &c, &mut res, false),
+        None => res.harness_fault = Some("the generator no longer reproduces the recorded program; use `swverif probe` on the recorded source".into()),
+    }
+    res
+}
+
+/// `swverif probe <file.sw> [hex script data]...` : compile a script in both profiles and print what the VM does
+fn subcommand(args: &[String]) -> Option<i32> {
+    if args.first().map(|s| s.as_str()) != Some("probe") {
+        return None;
+    }
+    let src = std::fs::read_to_string(&args[1]).expect("read source");
+    let work = work_dir("probe");
+    clean_dir(&work);
+    let mut am = Amortised::new(&work);
+    for profile in Profile::BOTH {
+        match am.compile("gencase", &src, profile) {
+            Err(e) => {
+                let dir = am.last_dir();
+                println!("{}: compile failed: {e}: {}", profile.name(), first_error_text(&mut am, &dir, profile));
+            }
+            Ok(c) => {
+                let datas: Vec<Vec<u8>> = if args.len() > 2 { args[2..].iter().map(|h| hex::decode(h).expect("hex")).collect() } else { vec![vec![]] };
+                for d in datas {
+                    println!("{} {} -> {}", profile.name(), hex::encode(&d), run_script(&c.pkg.bytecode.bytes, &d).short());
+                }
+            }
+        }
+    }
+    Some(0)
+}
